@@ -15,12 +15,12 @@ import (
 
 // atEnv is one (world, db, client child) triple with a fixed undo configuration.
 type atEnv struct {
-	r    *vc.Run
-	w    *world.World
-	db   *world.DB
-	ch   *vc.Child
-	name string
-	cfg  atUndoCfg
+	r      *vc.Run
+	w      *world.World
+	db     *world.DB
+	ch     *vc.Child
+	name   string
+	cfg    atUndoCfg
 	logPos int
 }
 
